@@ -6,6 +6,11 @@ lists, function calls, 1-D / 2-D arrays} with pairwise distinct leaves, every li
 operand/argument position, every known function id x arity x every subset of empty arguments, arrays
 of every shape up to a bound, references at several host cells, and the same trees decorated with
 the text-neutral thunk / whitespace nodes Numbers stores.
+The 'nested' group (both tiers) is the complete family outer context {binary operator x side, unary
+minus, percent, function argument} x LIST(inner operator x left {LIST(a op b), f(a), f(), leaf} x
+right {LIST(c op d), g(c), leaf}) - bracketed groups whose content begins and ends with a bracket.
+Literal classes include doubles that need 16 and 17 significant digits: such a node denotes its
+double, the text is right iff float(text) == stored double.
 
 Each tree is serialised to the stored post-fix node array the way Numbers stores it (mc.ref_formula.
 to_nodes), injected into a real document (formula data list + cell record), the document is saved and
@@ -49,7 +54,7 @@ KNOWN_NUMBER_PATTERN = "magnitude-x10^(mantissa_digits-2)"
 def _num_leaves(t, acc):
     k = t[0]
     if k == "num":
-        acc.setdefault(RF.num_value(t), t)
+        acc.setdefault(RF.canon_num(t), t)
     elif k == "bin":
         _num_leaves(t[2], acc)
         _num_leaves(t[3], acc)
@@ -142,9 +147,14 @@ def eval_cases(cases, tag="x"):
 
 
 def eval_case(case):
-    """One case {tree, deco, host}; used by --replay and (batched through eval_cases) by the enumeration."""
-    res, recs = eval_cases([(case["tree"], case.get("deco", False), case["host"])], "replay")
-    return res[0], recs[0]
+    """One case {tree, deco, host[, shared_with]}; used by --replay and (batched through eval_cases)
+    by the enumeration. `shared_with` lists hosts that carried the very same stored formula (same
+    formula-list key) earlier in the same document; they are written and read first, as in the
+    enumeration, so that a defect which depends on another host of the formula reproduces."""
+    deco = case.get("deco", False)
+    cases = [(case["tree"], deco, h) for h in case.get("shared_with", [])] + [(case["tree"], deco, case["host"])]
+    res, recs = eval_cases(cases, "replay")
+    return res[-1], recs[-1]
 
 
 # ------------------------------------------------------------------------------------------
@@ -168,14 +178,20 @@ def work(task):
         results, recs = eval_cases(doc_cases, f"{group}-{lo + off}")
         first_doc = lo + off == 0 and (sub is None or sub[1] == (0,) * len(sub[1]))
         part.count("documents_saved_and_reopened")
+        sharers = {}  # (tree, deco) -> hosts seen so far in this document (same formula-list key)
         for (tree, deco, host), fails, rec in zip(doc_cases, results, recs):
+            earlier = list(sharers.setdefault((tree, deco), []))
+            sharers[(tree, deco)].append(list(host))
             part.count("evaluations")
             part.count(f"cases_{group}")
             part.count("formula_reads", 3)
             verdict = "agrees"
             for ident, detail in fails:
                 verdict = "differs"
-                part.fail(ident, detail, {"tree": tree, "deco": deco, "host": list(host)})
+                payload = {"tree": tree, "deco": deco, "host": list(host)}
+                if earlier:
+                    payload["shared_with"] = earlier
+                part.fail(ident, detail, payload)
             part.outcome(f"{_root_kind(tree)}:{verdict}")
             if rec["text"][0] == "ok":
                 text = rec["text"][1]
@@ -233,6 +249,8 @@ def main():
     b = RF.BOUNDS[tier]
     for g in groups:
         run.floor(f"group '{g}' executed completely ({expected[g]} cases)", run.counters[f"cases_{g}"] == expected[g])
+    run.floor(f"group 'nested' has (24 binary contexts + 3) x 12 inner operators x left kinds x right kinds = {RF.nested_count(tier)} cases",
+              expected["nested"] == RF.nested_count(tier))
     ks = RF.kinds(seed)
     want_trees = sum(RF.count_shapes(k, ks) for k in range(1, b["max_internal"] + 1))
     run.floor(f"the generator yields exactly the combinatorial number of trees with <= {b['max_internal']} internal nodes ({want_trees})",
@@ -250,7 +268,10 @@ def main():
                "date literals are at midnight")
     run.assume("references are same-table cell references (C09 covers reference rendering); NAME() with one empty "
                "argument is excluded (indistinguishable from arity 0)")
-    run.assume("number literals have <= 15 significant digits and are non-negative (Numbers stores the sign as NEGATION_NODE)")
+    run.assume("number literals are non-negative (Numbers stores the sign as NEGATION_NODE); a node stored with a decimal "
+               "exponent whose decimal has 16-17 significant digits denotes its double: the text is right iff float(text) == "
+               "stored double (both sides reduced to the double's shortest decimal); 16-17 digit literals >= 1e16 are not "
+               "enumerated (they fall into the known magnitude defect with a differing last digit)")
     cov = {
         "bounds": {"internal_nodes_full_alphabet": max(b["max_internal"], b["deep_internal"]), "internal_nodes_reduced_alphabet": b["reduced_internal"],
                    "internal_kinds": len(RF.kinds(seed)), "reduced_kinds": len(RF.REDUCED),
